@@ -8,6 +8,7 @@
 
 #pragma once
 
+#include <pika/config/verif_hooks.hpp>
 #include <pika/assert.hpp>
 #include <pika/concurrency/cache_line_data.hpp>
 #include <pika/concurrency/spinlock.hpp>
@@ -90,8 +91,10 @@ namespace pika {
 
             if (new_count == 0)
             {
+                PIKA_VERIF_POINT(::pika::verif::latch_zero_before_lock, this);
                 std::unique_lock l(mtx_.data_);
                 notified_ = true;
+                PIKA_VERIF_POINT(::pika::verif::latch_before_notify, this);
 
                 // Note: we use notify_one repeatedly instead of notify_all as we
                 // know that our implementation of condition_variable::notify_one
@@ -149,6 +152,7 @@ namespace pika {
             else
             {
                 notified_ = true;
+                PIKA_VERIF_POINT(::pika::verif::latch_before_notify, this);
 
                 // Note: we use notify_one repeatedly instead of notify_all as we
                 // know that our implementation of condition_variable::notify_one
